@@ -355,6 +355,41 @@ def underscore_alias(ctx):
                           {"src": "_q*A", "params": params, "value": v, "meaning": expect * 2.0})
 
 
+def underscore_species(ctx):
+    """a species declared under a name with a leading underscore next to a parameter or another species with the same name
+    without it: the formula's `_x` reads the species `_x` in every place a formula is written."""
+    from bioscrape.types import Model
+    for other in ("parameter", "species"):
+        species = ["_x", "Z"] + (["x"] if other == "species" else [])
+        params = {"k": 1.0}
+        if other == "parameter":
+            params["x"] = 100.0
+        ic = {"_x": 7.0, "Z": 0.0}
+        if other == "species":
+            ic["x"] = 100.0
+        case = {"src": "2*_x + 1", "declared_next_to": other + " x = 100"}
+        ctx.begin_case(case)
+        try:
+            M = Model(species=species, parameters=params, reactions=[([], ["Z"], "general", {"rate": "2*_x + 1"})],
+                      rules=[("assignment", {"equation": "Z = 2*_x + 1"})], initial_condition_dict=ic)
+            sl, pl = M.get_species_list(), M.get_param_list()
+            x = np.array([ic[s_] for s_ in sl]); p = np.array(M.get_parameter_values(), dtype=float)
+            prop = M.get_propensities()[0]
+            got = {"propensity": float(prop.py_get_propensity(x.copy(), p, 0.0)), "volume propensity": float(prop.py_get_volume_propensity(x.copy(), p, 3.0, 0.0)),
+                   "growth law": float(M.parse_general_expression("2*_x + 1").py_evaluate(x.copy(), p, 0.0))}
+            x2 = x.copy()
+            M.__getstate__()[6][0].py_execute_rule(x2, p.copy(), 0.0, 0.01, True)
+            got["assignment rule"] = float(x2[sl.index("Z")])
+        except ValueError as e:
+            got = {"model": "rejected: %s" % e}
+        ctx.evaluated()
+        bad = {k: v for k, v in got.items() if v != 15.0}
+        if bad:
+            ctx.violation("underscore-species", "species _x = 7 declared next to the %s x = 100: '2*_x + 1' gives %s (its meaning: 15)" % (other, bad), dict(case, got=got))
+            return
+        ctx.count("underscore_species_cases")
+
+
 def growth_law_traces(ctx, rng):
     """a growth law that mentions t, used by the simulators that carry a volume: at every volume tick the law is evaluated at
     the time the tick ends, so V(t_n) = V(t_{n-1}) * exp(g(t_n) * dt).  Nothing random happens (the only reaction has rate
@@ -420,6 +455,7 @@ def run(ctx):
     malformed(ctx, rng)
     underscore_alias(ctx)
     growth_law_traces(ctx, rng)
+    underscore_species(ctx)
 
 
 def replay(ctx, obj):
